@@ -131,29 +131,39 @@ def spawn_defers(e: Engine, rep: Report, rule: str, pools: Set[str]):
     if not waits:
         rep.error('anchor vanished: pool.spawn in Queue._pool_spawn')
         return False
-    tests = set()
+    # tests of _pool_spawn that ask "does the running greenlet occupy a
+    # slot?": a call of a method of this class that looks getcurrent() up in
+    # every bounded pool, or an inline test mentioning getcurrent()
+    from ..facts import atoms_of_test
+    holder_atoms = set()
+    holder_ok = False
     for n in g.of_kind('test'):
+        for lab in (True, False):
+            for pol, k in atoms_of_test(n.ast, lab, n.frame):
+                if 'getcurrent' in k:
+                    holder_atoms.add(k)
+                    holder_ok = holder_ok or 'inline getcurrent() test'
         for c in ast.walk(n.ast):
             if isinstance(c, ast.Call) and isinstance(c.func, ast.Attribute) \
                     and isinstance(c.func.value, ast.Name) and \
                     c.func.value.id == 'self':
-                tests.add(c.func.attr)
-    holder_ok = False
-    for t in sorted(tests):
-        m = e.p.cls(QUEUE).methods.get(t)
-        if m is None:
-            continue
-        src = ast.unparse(m.node)
-        consts = {c.value for c in ast.walk(m.node)
-                  if isinstance(c, ast.Constant) and isinstance(c.value, str)}
-        if 'getcurrent' in src and all(p + '_pool' in consts for p in pools):
-            holder_ok = t
+                m = e.p.cls(QUEUE).methods.get(c.func.attr)
+                if m is None:
+                    continue
+                src = ast.unparse(m.node)
+                consts = {x.value for x in ast.walk(m.node)
+                          if isinstance(x, ast.Constant) and
+                          isinstance(x.value, str)}
+                if 'getcurrent' in src and all(
+                        p + '_pool' in consts for p in pools):
+                    holder_atoms.add('self.%s()' % c.func.attr)
+                    holder_ok = c.func.attr
     if not holder_ok:
         return False
     for n in waits:
         pv = canon(n.ast.func.value, n.frame)
-        alts = [(True, '%s is gevent' % pv),
-                (False, 'self.%s()' % holder_ok)]
+        alts = [(True, '%s is gevent' % pv)] + [
+            (False, k) for k in sorted(holder_atoms)]
         if common.unguarded_path(e, g, n, alts) is not None:
             return False
     return holder_ok
